@@ -411,8 +411,22 @@ def c08(prop, tier):
                                   "or from the template (expand)")
 
 
+def lazydfa_stages(tier):
+    q = tier == "quick"
+    fam = ["LIT", "G2a", "CAP", "CC"][vlib.seed() % 4]
+    nsh = {"LIT": 8, "G2a": 64, "CAP": 4, "CC": 16}[fam]
+    consts = {"Family": fam, "Shard": vlib.seed() % min(nsh, 4), "NShards": nsh * (2 if q else 1), "Budget": 40 if q else 90, "LCap": 4,
+              "Caps": {2, 3, 100}, "ClearBudgets": {0, 1, 3}}
+    cfg = "SPECIFICATION Spec\nINVARIANT Exact\n"
+    return [tlc_model_stage("LazyDFA_keep", "MC_LazyDFA", dict(consts, Resume="keep"), cfg, workers=6),
+            # the resume rule of the code as found ("restart from the start state") loses the match in progress: TLC must find it
+            tlc_model_stage("LazyDFA_restart_control", "MC_LazyDFA", dict(consts, Family="LIT", Shard=0, NShards=8, Resume="restart"), cfg,
+                            workers=2, expect_violation=True)]
+
+
 def c14(prop, tier):
     return run_search_family(prop, tier, prop, subcmd="engines", with_at=True, budget_scale=0.5 if tier == "quick" else 0.6,
+                             stages=lazydfa_stages(tier),
                              rule="TLC enumerates pattern-family shards x haystacks x every start offset and evaluates, per offset, the "
                                   "leftmost-first and leftmost-longest match, the match anchored at the offset and the set of all match ends; "
                                   "each engine entry point (PikeVM x12, bounded backtracker, lazy DFA forward/anchored/earliest/reverse under 6 "
